@@ -81,7 +81,15 @@ def _stack(L, batch=None):
     return n0, aoi, lam, ns, ds
 
 
-@harness('C17', 'multilayer_stack_rt/energy', variants=[dict(pol=p, L=L) for p in ('s', 'p') for L in (1, 2, 3)],
+@harness('C17', 'multilayer_stack_rt/energy-3-layers', variants=[dict(pol=p, L=3) for p in ('s', 'p')], tiers=('thorough',),
+         fuc=['prysm.thinfilm.multilayer_stack_rt'])
+def stack_energy3(v):
+    """three-layer instance of multilayer_stack_rt/energy through the real code (thorough tier: the polynomial
+    identity needs ~10-40 s; every layer count is covered modularly by class-M + closure + multilayer_matrix/class-M)."""
+    stack_energy(v)
+
+
+@harness('C17', 'multilayer_stack_rt/energy', variants=[dict(pol=p, L=L) for p in ('s', 'p') for L in (1, 2)],
          fuc=['prysm.thinfilm.multilayer_stack_rt', 'prysm.thinfilm.multilayer_matrix_s', 'prysm.thinfilm.multilayer_matrix_p',
               'prysm.thinfilm.characteristic_matrix_s', 'prysm.thinfilm.characteristic_matrix_p', 'prysm.thinfilm.rtot',
               'prysm.thinfilm.ttot', 'prysm.thinfilm.snell_aor'])
@@ -146,23 +154,23 @@ def zero_thickness(v):
     check('t-unchanged', approx(t1, t0))
 
 
-@harness('C17', 'stack/half-wave-absentee', variants=['s', 'p'], fuc=['prysm.thinfilm.multilayer_stack_rt'])
-def half_wave(pol):
-    """a layer whose phase thickness is a multiple of pi (sin beta = 0, e.g. a half-wave layer) leaves
-    reflectance and transmittance of the stack unchanged."""
+@harness('C17', 'stack/half-wave-absentee', variants=[dict(pol=p, m=m) for p in ('s', 'p') for m in (1, 2)],
+         fuc=['prysm.thinfilm.multilayer_stack_rt', 'prysm.thinfilm.characteristic_matrix_s', 'prysm.thinfilm.characteristic_matrix_p'])
+def half_wave(v):
+    """a layer of optical thickness n d cos(theta) = m lambda/2 (half-wave absentee layer, m = 1, 2) on top of a
+    substrate leaves the reflectance and transmittance of the bare substrate unchanged, at any incidence."""
+    pol, m = v['pol'], v['m']
     n0, aoi, lam, ns, ds = _stack(2)
     th0 = aoi * pi / 180
     c0, s0 = cos(th0), sin(th0)
     assume(And(c0 > 0, s0 >= 0, n0 * s0 < ns[0], n0 * s0 < ns[1]))
     th1 = call(TF + 'snell_aor', n0, ns[0], th0, degrees=False)
-    k = 2 * pi * ns[0] / lam
-    beta = k * ds[0] * cos(th1)
-    assume(sin(beta) == 0)
+    d1 = m * lam / (2 * ns[0] * cos(th1))
     with no_div_safety():      # see multilayer_stack_rt/energy
         r0, t0 = call(TF + 'multilayer_stack_rt', [(ns[1], ds[1])], lam, pol, aoi=aoi, ambient_index=n0)
-        r1, t1 = call(TF + 'multilayer_stack_rt', [(ns[0], ds[0]), (ns[1], ds[1])], lam, pol, aoi=aoi, ambient_index=n0)
-    check('r-unchanged', approx(r1, r0))              # hence R = |r|^2 unchanged
-    check('T-unchanged', approx(abs2(t1), abs2(t0)))
+        r1, t1 = call(TF + 'multilayer_stack_rt', [(ns[0], d1), (ns[1], ds[1])], lam, pol, aoi=aoi, ambient_index=n0)
+    check('r-unchanged', approx(r1, r0, 1e-7))              # hence R = |r|^2 unchanged
+    check('T-unchanged', approx(abs2(t1), abs2(t0), 1e-7))
 
 
 @lemma('C17', 'lemma/class-M-closed-under-product')
